@@ -590,7 +590,7 @@ Definition apply_idx (f : idxfun) (x : term) : er term :=
   | FSext k => chk (mk_bvsext x k)
   | FRol k => chk (mk_bvrol x k)
   | FRor k => chk (mk_bvror x k)
-  | FRepeat k => repeat_fold (Z.to_nat (k - 1)) x x
+  | FRepeat k => if (k <? 1)%Z then Er EValue else repeat_fold (Z.to_nat (k - 1)) x x
   end.
 
 (* ================================================================ calling an item: the call of fun on lst *)
